@@ -83,11 +83,15 @@ theorem durBody_render (neg : Bool) (ip fp : Option Str)
   have hfr := durFracPart_fracChars hf
   cases ip with
   | none =>
-    obtain ⟨ds, hfp, _⟩ := hne rfl
+    obtain ⟨ds, hfp, hdne⟩ := hne rfl
     subst hfp
     have hfr' : durFracPart ('.' :: ds) = some (some ds) := hfr
     have e1 : durIntPart ('.' :: ds) = some ([], '.' :: ds) := by
-      simp [durIntPart]
+      cases ds with
+      | nil => exact absurd rfl hdne
+      | cons d t' =>
+        have hd := (allDigits_cons.mp (hf _ rfl).1).1
+        simp [durIntPart, hd]
     have hb : durBody neg ('.' :: ds) = some (durResult neg none (some ds)) := by
       unfold durBody
       rw [if_neg (by simp), e1]
@@ -129,7 +133,7 @@ theorem durBody_render (neg : Bool) (ip fp : Option Str)
 
 theorem durBody_some {neg : Bool} {b : Str} {v : Int × Int} (h : durBody neg b = some v) :
     ∃ ip fp, b = optChars ip ++ fracChars fp ∧ (∀ ds, ip = some ds → JsonInt ds) ∧
-      (∀ ds, fp = some ds → allDigits ds ∧ ds.length ≤ 9) ∧ (ip = none → ∃ ds, fp = some ds) ∧
+      (∀ ds, fp = some ds → allDigits ds ∧ ds.length ≤ 9) ∧ (ip = none → ∃ ds, fp = some ds ∧ ds ≠ []) ∧
       natOfDigits (optChars ip) ≤ maxInt64 ∧ v = durResult neg ip fp := by
   unfold durBody at h
   split at h
@@ -183,21 +187,30 @@ theorem durBody_some {neg : Bool} {b : Str} {v : Int × Int} (h : durBody neg b 
           · -- '.'
             next hc0 hc1 hc =>
             subst hc
-            simp only [Option.bind_some, if_true] at h
-            cases hfr : durFracPart ('.' :: t) with
-            | none => simp [hfr] at h
-            | some fp =>
-              obtain ⟨hb, hf⟩ := durFracPart_some hfr
-              simp only [hfr, Option.bind_some, Option.some.injEq] at h
-              refine ⟨none, fp, (by simp [optChars, hb]), (by intro ds e; cases e), hf, ?_, (by decide), ?_⟩
-              · intro _
-                cases fp with
-                | none => simp [fracChars] at hb
-                | some ds => exact ⟨ds, rfl⟩
-              · rw [← h]
-                simp only [durResult, optChars_none, optChars_some]
-                rw [nanos_match]
-                simp [natOfDigits_nil]
+            cases t with
+            | nil => simp at h
+            | cons d t' =>
+              by_cases hd : isDigit d = true
+              · simp only [hd, if_true, Option.bind_some] at h
+                cases hfr : durFracPart ('.' :: d :: t') with
+                | none => simp [hfr] at h
+                | some fp =>
+                  obtain ⟨hb, hf⟩ := durFracPart_some hfr
+                  simp only [hfr, Option.bind_some, Option.some.injEq] at h
+                  refine ⟨none, fp, (by simp [optChars, hb]), (by intro ds e; cases e), hf, ?_, (by decide), ?_⟩
+                  · intro _
+                    cases fp with
+                    | none => simp [fracChars] at hb
+                    | some ds =>
+                      refine ⟨ds, rfl, ?_⟩
+                      intro e
+                      subst e
+                      simp [fracChars] at hb
+                  · rw [← h]
+                    simp only [durResult, optChars_none, optChars_some]
+                    rw [nanos_match]
+                    simp [natOfDigits_nil]
+              · simp [hd] at h
           · simp at h
 
 /-! ### `parseDuration`: suffix and sign -/
@@ -278,12 +291,8 @@ theorem parseDuration_render (p : DurParts) (hwf : p.WF) (hmax : natOfDigits (op
     rw [hr, parseDuration_snoc, if_neg (by simp)]
     simp [hbody]
 
-/-- the strings on which the scanner departs from the documented grammar -/
-def noDigits (s : Str) : Prop := s = ['.', 's'] ∨ s = ['+', '.', 's'] ∨ s = ['-', '.', 's']
-
-/-- every accepted string other than `.s`, `+.s`, `-.s` is a well-formed literal, and the result is its
-documented value -/
-theorem parseDuration_sound {s : Str} {v : Int × Int} (h : parseDuration s = some v) (hx : ¬ noDigits s) :
+/-- every accepted string is a well-formed literal, and the result is its documented value -/
+theorem parseDuration_sound {s : Str} {v : Int × Int} (h : parseDuration s = some v) :
     ∃ p : DurParts, p.WF ∧ p.render = s ∧ p.value = v ∧ natOfDigits (optChars p.intp) ≤ maxInt64 := by
   obtain ⟨x, hs, hxne⟩ := parseDuration_some h
   subst hs
@@ -294,19 +303,7 @@ theorem parseDuration_sound {s : Str} {v : Int × Int} (h : parseDuration s = so
       ∃ p : DurParts, p.WF ∧ p.render = x ++ ['s'] ∧ p.value = v ∧ natOfDigits (optChars p.intp) ≤ maxInt64 := by
     intro sg neg b hxb hneg hb
     obtain ⟨ip, fp, hbe, hi, hf, hn, hm, hv⟩ := durBody_some hb
-    refine ⟨⟨sg, ip, fp⟩, ⟨hi, hf, ?_⟩, ?_, ?_, hm⟩
-    · intro hip
-      obtain ⟨ds, hds⟩ := hn hip
-      refine ⟨ds, hds, ?_⟩
-      intro hnil
-      -- the excluded strings
-      apply hx
-      simp only at hip
-      subst hip; subst hds; subst hnil
-      simp only [optChars, fracChars, List.nil_append] at hbe
-      subst hbe
-      subst hxb
-      cases sg <;> simp [noDigits, Sign.chars]
+    refine ⟨⟨sg, ip, fp⟩, ⟨hi, hf, hn⟩, ?_, ?_, hm⟩
     · simp [DurParts.render, hxb, hbe, List.append_assoc]
     · rw [durParts_value, hv]
       simp only
